@@ -29,6 +29,7 @@ def gen(rng, tier, i):
         chaos["capacity"] = rng.choice([4096, 65536])
     sc.net["chaos"] = chaos
     sc.net["spawn_yield"] = rng.choice([0, 300])
+    sc.net["lock_yield"] = rng.choice([0, 100, 500])   # seeded scheduling points at the asynchronous locks
     sc.cfg["timeouts"] = {"idle": 3600}
     lis = {"http": sc.add_http_listener("l-http"), "https": sc.add_http_listener("l-https", tls=True), "socks": sc.add_socks_listener("l-socks")}
     use_quic = rng.random() < (0.5 if tier == "thorough" else 0.25)
